@@ -252,12 +252,13 @@ struct PGMIndex<K, Epsilon, EpsilonRecursive, Floating>::Segment {
      * @return the approximate position of the specified key
      */
     inline size_t operator()(const K &k) const {
-        size_t pos;
+        double pos;
         if constexpr (std::is_same_v<K, int64_t> || std::is_same_v<K, int32_t>)
-            pos = size_t(slope * double(std::make_unsigned_t<K>(k) - key));
+            pos = slope * double(std::make_unsigned_t<K>(k) - key);
         else
-            pos = size_t(slope * double(k - key));
-        return pos + intercept;
+            pos = slope * double(k - key);
+        // Saturate: far from the segment the product can exceed the range of size_t (the conversion would be undefined)
+        return (pos < 0x1p63 ? size_t(pos) : size_t(1) << 63) + intercept;
     }
 };
 
